@@ -122,7 +122,9 @@ def witness_cases(c, n_shards, per_witness, seed, max_cases=None, extra_sizes=((
         alphabet, wit = load_witnesses(emu)
         for wi, h in enumerate(wit):
             base = [b for tok in h for b in tok]
-            toks = alphabet if per_witness == "all" else [rng.choice(alphabet) for _ in range(per_witness)]
+            # every witness is extended by a printable (the one token that exercises wrap / margin / insert handling in
+            # whatever state class the witness reached) and by random tokens of the model's alphabet
+            toks = alphabet if per_witness == "all" else [[65]] + [rng.choice(alphabet) for _ in range(per_witness)]
             for ti, tok in enumerate(toks):
                 w, hh = (3, 2) if rng.random() < 0.7 else rng.choice(extra_sizes)
                 cases.append({"id": f"w-{emu}-{wi}-{ti}", "emu": emu, "music": 0, "w": w, "h": hh, "alloc": rng.randrange(2), "bs": 0,
